@@ -26,7 +26,11 @@ type c13Round struct {
 	RefuseMs int    `json:"refuse_ms,omitempty"` // nothing listens for this long after the loss
 	// negotiation failures before the good attempt: transient (unexpected reply to <auth/>, stream closed cleanly),
 	// transientdrop (the same, connection cut), cutfeatures (connection cut after the server's stream header, before
-	// the features), cutproceed (TLS only: cut after the client's <starttls/>, before <proceed/>), permanent (SASL failure)
+	// the features), cutproceed (TLS only: cut after the client's <starttls/>, before <proceed/>), permanent (SASL failure),
+	// and, TLS only, the handshake that follows <proceed/> is REFUSED (a TLS policy failure, permanent): by the server
+	// with an alert -- tlsversion (the server accepts TLS 1.3 only, the application pins TLS 1.2), tlsclientcert (the
+	// server demands a client certificate) -- or by the client -- tlswronghost tlsuntrusted tlsexpired (certificate
+	// for another name / from an unknown authority / out of date)
 	Fails  []string `json:"fails,omitempty"`
 	Resume bool     `json:"resume,omitempty"` // the good attempt resumes the stream-managed session
 }
@@ -58,6 +62,42 @@ func c13Resumes(in c13In, rd c13Round) bool {
 	return true
 }
 
+// c13TLSRefusal: the certificate kind / server TLS configuration (srv.go serverTLSConfig) that makes the handshake
+// after <proceed/> fail; "" for every other kind of failure.
+func c13TLSRefusal(f string) string {
+	switch f {
+	case "tlsversion":
+		return "tls13only"
+	case "tlsclientcert":
+		return "needclientcert"
+	case "tlswronghost":
+		return "wronghost"
+	case "tlsuntrusted":
+		return "untrusted"
+	case "tlsexpired":
+		return "expired"
+	}
+	return ""
+}
+
+// c13Permanent: failures that must end the retry loop (rejected credentials, TLS policy failure).
+func c13Permanent(f string) bool { return f == "permanent" || c13TLSRefusal(f) != "" }
+
+// c13Pins12: the application allows TLS 1.2 at most. Needed for the refusals that come from the server: a TLS 1.3
+// server that wants a client certificate only says so after the client's handshake has completed.
+func c13Pins12(in c13In) bool {
+	for _, rd := range in.Rounds {
+		for _, f := range rd.Fails {
+			if f == "tlsversion" || f == "tlsclientcert" {
+				return true
+			}
+		}
+	}
+	return false
+}
+
+var c13Refusals = []string{"tlsversion", "tlsclientcert", "tlswronghost", "tlsuntrusted", "tlsexpired"}
+
 func c13IsCut(f string) bool { return f == "transientdrop" || f == "cutfeatures" || f == "cutproceed" }
 
 type c13 struct{}
@@ -69,7 +109,7 @@ func (c13) RunFn() string { return "run_C13" }
 func (c13) Workers() int  { return 32 }
 func (c13) Journal() bool { return true }
 func (c13) Rule() string {
-	return "fault sequences of up to 4 rounds on successive connections of a real StreamManager+Client: abrupt drop, graceful </stream:stream> or <stream:error><system-shutdown/></stream:error></stream:stream> by the server, listener down for 0-120 ms (refused attempts), keepalive interval the default or 3-10 ms (shorter than the outage), 0-2 negotiation failures (transient: unexpected reply to <auth/>, with a clean stream close or with the connection cut, or the connection cut after the server's stream header / after the client's <starttls/>; permanent: SASL <failure/>), then a successful attempt that resumes (stream management) or binds afresh; a probe stanza is sent on every established session; finally Stop; also first-connection failures; cleartext or mandatory STARTTLS; TCP or WebSocket transport; distinct = fault sequence; non-trivial = at least one loss followed by a new session"
+	return "fault sequences of up to 4 rounds on successive connections of a real StreamManager+Client: abrupt drop, graceful </stream:stream> or <stream:error><system-shutdown/></stream:error></stream:stream> by the server, listener down for 0-120 ms (refused attempts), keepalive interval the default or 3-10 ms (shorter than the outage), 0-2 negotiation failures (transient: unexpected reply to <auth/>, with a clean stream close or with the connection cut, or the connection cut after the server's stream header / after the client's <starttls/>; permanent: SASL <failure/>, or - TLS mandatory - the handshake after <proceed/> refused by the server with an alert (TLS 1.3 only against an application pinning TLS 1.2; client certificate demanded) or by the client (certificate for another name, from an unknown authority, expired)), then a successful attempt that resumes (stream management) or binds afresh; a probe stanza is sent on every established session; finally Stop; also first-connection failures; cleartext or mandatory STARTTLS; TCP or WebSocket transport; distinct = fault sequence; non-trivial = at least one loss followed by a new session"
 }
 func (c13) Decode(raw json.RawMessage) (interface{}, error) {
 	var in c13In
@@ -107,6 +147,12 @@ func (c13) Gen(r *rand.Rand, tier string) []interface{} {
 		c13In{Rounds: []c13Round{{Term: "drop", Fails: []string{"cutfeatures"}}}},
 		c13In{TLS: true, Rounds: []c13Round{{Term: "drop", Fails: []string{"cutproceed"}}}},
 		c13In{TLS: true, SM: true, Rounds: []c13Round{{Term: "close", Resume: true}, {Term: "serr", Fails: []string{"transient"}}}},
+		// TLS mandatory, and the handshake of a reconnection attempt is refused: a policy failure ends the retry loop
+		c13In{TLS: true, Rounds: []c13Round{{Term: "drop", Fails: []string{"tlsversion"}}}},
+		c13In{TLS: true, Rounds: []c13Round{{Term: "close", Fails: []string{"tlsclientcert"}}}},
+		c13In{TLS: true, SM: true, Rounds: []c13Round{{Term: "drop", Resume: true}, {Term: "serr", Fails: []string{"transient", "tlsuntrusted"}}}},
+		c13In{TLS: true, Rounds: []c13Round{{Term: "drop", RefuseMs: 60, Fails: []string{"cutproceed", "tlswronghost"}}}},
+		c13In{TLS: true, KaMs: 5, Rounds: []c13Round{{Term: "drop", Fails: []string{"tlsexpired"}}}},
 		// WebSocket transport
 		c13In{WS: true, KaMs: 20, Rounds: []c13Round{{Term: "drop"}}},
 		c13In{WS: true, KaMs: 20, Rounds: []c13Round{{Term: "drop", RefuseMs: 80}}},
@@ -118,7 +164,7 @@ func (c13) Gen(r *rand.Rand, tier string) []interface{} {
 			in.KaMs = 3 + r.Intn(8)
 		}
 		switch r.Intn(8) {
-		case 0:
+		case 0, 2:
 			in.TLS = true
 		case 1:
 			in.WS, in.SM = true, false
@@ -141,6 +187,10 @@ func (c13) Gen(r *rand.Rand, tier string) []interface{} {
 					rd.Fails = append(rd.Fails, "permanent")
 					break
 				}
+				if in.TLS && r.Intn(4) == 0 {
+					rd.Fails = append(rd.Fails, c13Refusals[r.Intn(len(c13Refusals))])
+					break
+				}
 				switch x := r.Intn(8); {
 				case in.WS:
 					rd.Fails = append(rd.Fails, "transient")
@@ -156,7 +206,7 @@ func (c13) Gen(r *rand.Rand, tier string) []interface{} {
 			}
 			rd.Resume = in.SM && r.Intn(2) == 0
 			in.Rounds = append(in.Rounds, rd)
-			if len(rd.Fails) > 0 && rd.Fails[len(rd.Fails)-1] == "permanent" {
+			if len(rd.Fails) > 0 && c13Permanent(rd.Fails[len(rd.Fails)-1]) {
 				break
 			}
 		}
@@ -200,7 +250,7 @@ func (c13) Input(inp interface{}) Sx {
 				att(0)
 			}
 			for _, f := range rd.Fails {
-				if f == "permanent" {
+				if c13Permanent(f) {
 					att(2)
 					break rounds
 				}
@@ -241,6 +291,10 @@ func c13Scripts(in c13In) (scripts []connScript, good map[int]bool, resumed map[
 		case "cutproceed":
 			// STARTTLS is offered and required; the connection is cut when the client asks for it
 			return connScript{Groups: [][]sItem{{hdrItem(), {T: "features", TLS: 2}}, {{T: "wait", N: 3}, {T: "eof"}}}}
+		}
+		if cert := c13TLSRefusal(kind); cert != "" {
+			// <proceed/>, then a handshake that one side refuses
+			return connScript{Groups: [][]sItem{{hdrItem(), {T: "features", TLS: 2}}, {{T: "proceed"}}}, Cert: cert}
 		}
 		return connScript{Groups: append(pre(), []sItem{rep}), IdleDropMs: 1500}
 	}
@@ -284,7 +338,7 @@ func c13Scripts(in c13In) (scripts []connScript, good map[int]bool, resumed map[
 	for _, rd := range in.Rounds {
 		for _, f := range rd.Fails {
 			add(fail(f), false, false)
-			if f == "permanent" {
+			if c13Permanent(f) {
 				return
 			}
 			if c13DropsSession(f) {
@@ -623,6 +677,9 @@ func (c13) Run(inp interface{}) Sx {
 	if in.TLS {
 		initCerts()
 		cfg.TLSConfig = &tls.Config{RootCAs: caPool}
+		if c13Pins12(in) {
+			cfg.TLSConfig.MaxVersion = tls.VersionTLS12
+		}
 	}
 	if in.KaMs > 0 {
 		cfg.KeepaliveInterval = time.Duration(in.KaMs) * time.Millisecond
@@ -695,6 +752,7 @@ func (c13) Run(inp interface{}) Sx {
 	connIdx := 0 // index of the server connection carrying the current session
 	sessions := 0
 	dead := false
+	var refusedAt []int // connections on which the fault sequence has the TLS handshake refused
 	settle := time.Duration(0)
 	if in.First == "" {
 		if waitPost(1, 5*time.Second) {
@@ -733,7 +791,13 @@ func (c13) Run(inp interface{}) Sx {
 					// second, concurrent retry loop (if the code starts one) the time to show itself
 					settle = 1600 * time.Millisecond
 				}
-				if f == "permanent" {
+				if c13TLSRefusal(f) != "" {
+					// the connection of a refused handshake is gone when the client closes its stream: Transport.Close
+					// sits out ConnectTimeout (1 s) before a retry loop that has NOT ended makes its next attempt
+					settle = 1600 * time.Millisecond
+					refusedAt = append(refusedAt, connIdx)
+				}
+				if c13Permanent(f) {
 					dead = true
 					break rounds
 				}
@@ -784,6 +848,15 @@ func (c13) Run(inp interface{}) Sx {
 	}
 	time.Sleep(5 * time.Millisecond)
 	srvSessions, srvResumed, extra := srv.result()
+	if t, ok := srv.(*c13TCP); ok && dead {
+		// the scenario is only what it claims to be if the handshake really failed on that connection
+		logs := t.srv.snapshot()
+		for _, i := range refusedAt {
+			if i >= len(logs) || logs[i].TLS != "handshake-error" {
+				return L(SBytes("tls-refusal-not-realised"), Zi(i))
+			}
+		}
+	}
 	mu.Lock()
 	p := post
 	mu.Unlock()
@@ -827,7 +900,7 @@ func (c13) Oracle(inp interface{}, obs Sx) (string, string) {
 			}
 			perm := false
 			for _, f := range rd.Fails {
-				if f == "permanent" {
+				if c13Permanent(f) {
 					perm = true
 				}
 			}
